@@ -454,6 +454,19 @@ SPECS += [
      replace_expr_where("AddingVisitor.visitNormalImport", _is_sep_add, lambda n: n.left, nth=1), ["R07.8"]),
 ]
 
+
+SPECS += [
+    ("C10", "rollback-calls-same-direction", "rope/base/change.py",
+     replace_expr_where("ChangeSet.undo", lambda n: isinstance(n, ast.Call) and ast.unparse(n) == "change.do()",
+                        lambda n: ast.parse("change.undo()").body[0].value), ["R10.11"]),
+    ("C03", "import-binds-dotted-name", "rope/refactor/extract.py",
+     replace_expr_where("_FunctionInformationCollector._Import", lambda n: isinstance(n, ast.Subscript) and "split" in ast.unparse(n),
+                        lambda n: n.value.func.value), ["R03.13"]),
+    ("C15", "import-binds-dotted-name", "rope/base/pyobjectsdef.py",
+     replace_expr_where("_ScopeVisitor._Import", lambda n: isinstance(n, ast.Subscript) and "split" in ast.unparse(n),
+                        lambda n: n.value.func.value), ["R15.12"]),
+]
+
 SPECS = [s for s in SPECS if s[1] != "tab-to-four-spaces"]
 
 
